@@ -248,6 +248,40 @@ impl tower::Service<Request<Bytes>> for AppService {
     }
 }
 
+thread_local! {
+    /// nodes started while this is set also serve the services generated by anemo-build (typed
+    /// bincode / JSON methods) next to the application service
+    pub static WITH_GENERATED: std::cell::Cell<bool> = const { std::cell::Cell::new(false) };
+}
+
+/// Requests under a generated service's name go to the generated servers, everything else to
+/// the application service.
+#[derive(Clone)]
+pub struct Dispatch {
+    app: AppService,
+    generated: anemo::Router,
+}
+
+impl tower::Service<Request<Bytes>> for Dispatch {
+    type Response = Response<Bytes>;
+    type Error = Infallible;
+    type Future = BoxFuture<'static, Result<Response<Bytes>, Infallible>>;
+
+    fn poll_ready(&mut self, _: &mut Context<'_>) -> Poll<Result<(), Infallible>> {
+        Poll::Ready(Ok(()))
+    }
+
+    fn call(&mut self, req: Request<Bytes>) -> Self::Future {
+        let r = req.route();
+        if r.starts_with("/c17.Probe/") || r.starts_with("/Greeter/") || r.starts_with("/p.q.Greeter/") {
+            let mut g = self.generated.clone();
+            Box::pin(async move { g.call(req).await })
+        } else {
+            Box::pin(self.app.call(req))
+        }
+    }
+}
+
 static NEXT_PORT: AtomicU64 = AtomicU64::new(0);
 
 /// Next candidate listening address: 127.0.0.1 with a port in 10000..30000, starting at a
@@ -409,6 +443,10 @@ impl Sim {
                         .service(ToStatus(service.clone()));
                     builder.start(tower::limit::ConcurrencyLimit::new(FromStatus(inner), conc))
                 }
+                None if WITH_GENERATED.with(|c| c.get()) => builder.start(Dispatch {
+                    app: service.clone(),
+                    generated: crate::scenarios::codegen::generated_router(),
+                }),
                 None => builder.start(service.clone()),
             };
             match started {
